@@ -132,6 +132,22 @@ func genC03(seed uint64, run int, tier string) *Plan {
 			}
 		}
 	}
+	if r.IntN(5) == 0 {
+		// retention with second-scale ages, idle periods and frequent expiry ticks (commits that change nothing):
+		// trimming builds a new change log, whatever a snapshot holds keeps the old one
+		p.Cfg.MinOplog = 1 + r.IntN(3)
+		p.Cfg.MaxOplog = p.Cfg.MinOplog + r.IntN(3)
+		p.Cfg.MinAgeS, p.Cfg.MaxAgeS = 1, pick(r, int64(1), 2, 3600)
+		p.Cfg.ExpireMs = pick(r, int64(200), 500)
+		var ops []Op
+		for _, op := range tp.Ops {
+			ops = append(ops, op)
+			if op.K == "snap" {
+				ops = append(ops, Op{K: "sleep", Ms: int64(1100 + r.IntN(2500))}, Op{K: "recheck"})
+			}
+		}
+		tp.Ops = ops
+	}
 	p.Tasks = append(p.Tasks, tp)
 	if r.IntN(4) == 0 && len(p.Faults) == 0 {
 		p.Faults = append(p.Faults, Fault{Kind: pick(r, "store-before", "store-slow-fail"), At: r.IntN(8), Ms: int64(1 + r.IntN(1500))})
